@@ -475,4 +475,19 @@ func (sw *vSyncWorld) monC11(err error) {
 		sym.Assert(revAdopts == 0, "C11", "a set being deleted adopts no revision")
 		sym.Disc("")
 	}
+	if !sw.delet && sw.apiSet == 2 {
+		// the deletion is known to the API server only (the cache lags): nothing may be adopted
+		sym.Cover("set deleted on the server, cache stale")
+		adopts := 0
+		for _, op := range w.ops {
+			if op.verb == "rev.patch" || (op.verb == "pod.patch" && !strings.Contains(op.patch, `"$patch":"delete"`)) {
+				adopts++
+			}
+		}
+		if adopts > 0 {
+			sym.Disc("adopted-with-stale-cache")
+		}
+		sym.Assert(adopts == 0, "C11", "nothing is adopted once the API server shows the set being deleted")
+		sym.Disc("")
+	}
 }
